@@ -53,3 +53,11 @@ func Select(hasDefault bool, cases ...Case) int {
 		}
 	}
 }
+
+// Wait parks the calling controlled thread until the (statement-level, blocking) channel operation
+// can proceed; the native operation follows. Outside a controlled execution it does nothing.
+func Wait(c Case) {
+	if t := sched.Cur(); t != nil {
+		t.Select(false, []Case{c}, "chan-op")
+	}
+}
